@@ -127,6 +127,10 @@ func vfCallExec(callsOn bool) func(hist []int, last bool) vfXResult {
 				attachedBefore[s] = s != "c1" && x.attached(s)
 			}
 			code := 0
+			calls0 := x.w.db.Calls()
+			if isLast && vfXFault.K > 0 {
+				x.w.db.FailAt(vfXFault.K, vfErrInjectedStore)
+			}
 			switch op.Kind {
 			case "invite":
 				ninv++
@@ -150,6 +154,35 @@ func vfCallExec(callsOn bool) func(hist []int, last bool) vfXResult {
 				code, _ = x.cl[op.Sess].Req(`{"pub":{"id":"$ID","topic":"%s","content":"plain"}}`, x.addr(op.Sess))
 			case "tick":
 				vsched.Advance(40 * time.Second)
+			}
+			if isLast {
+				x.w.db.ClearFaults()
+				res.NCalls = x.w.db.Calls() - calls0
+				if vfXFault.K > 0 {
+					// a store failure must not leave the topic stuck with a call that can never end:
+					// after the establishment timeout a new invitation is accepted
+					failed := "?"
+					for _, j := range x.w.db.Journal() {
+						if j.Seq == calls0+vfXFault.K {
+							failed = j.Name
+						}
+					}
+					vsched.Advance(40 * time.Second)
+					if t := vfTopic(x.p2p); t != nil && t.currentCall != nil && len(t.currentCall.parties) < 2 {
+						res.Violations = append(res.Violations, vfXViolation{Key: "C15:call-never-ends-after-store-failure:" + op.Kind + ":" + op.Event + "@" + failed,
+							What: fmt.Sprintf("%s with store call #%d (%s) failing: the unanswered call is still in progress after the establishment timeout", op.Name, vfXFault.K, failed)})
+					}
+					if !x.attached("a1") {
+						x.cl["a1"].Req(`{"sub":{"id":"$ID","topic":"%s"}}`, x.addr("a1"))
+					}
+					if t := vfTopic(x.p2p); t != nil && t.currentCall == nil {
+						if c2, _ := x.cl["a1"].Req(`{"pub":{"id":"$ID","topic":"%s","head":{"webrtc":"started","mime":"application/x-tinode-webrtc"},"content":"call"}}`, x.addr("a1")); c2 == 486 {
+							res.Violations = append(res.Violations, vfXViolation{Key: "C15:busy-without-call:" + op.Kind + "@" + failed, What: "no call in progress, yet a new invitation is answered 486"})
+						}
+					}
+					res.Key = "fault-run"
+					return res
+				}
 			}
 			frames := map[string][]*vfFrame{}
 			for n, c := range x.cl {
@@ -381,6 +414,13 @@ func vfStripSeq(s string) string {
 
 func init() {
 	ops := vfCallOps()
+	vfXModels["call-fault"] = &vfXModel{Name: "call-fault", NumOps: len(ops), OpName: func(i int) string { return ops[i].Name },
+		Exec: vfCallExec(true), MaxDepth: func(th bool) int {
+			if th {
+				return 4
+			}
+			return 3
+		}, FaultDepth: func(th bool) int { return 4 }}
 	for _, on := range []bool{true, false} {
 		name := "call"
 		if !on {
@@ -400,4 +440,5 @@ func init() {
 }
 
 func TestVerifC15Call(t *testing.T)    { vfXSearch(t, "C15", "call", "call") }
+func TestVerifC15Fault(t *testing.T)   { vfXSearch(t, "C15", "call-fault", "call-fault") }
 func TestVerifC15CallOff(t *testing.T) { vfXSearch(t, "C15", "call-off", "call-off") }
